@@ -71,7 +71,7 @@ def render(batch, fmt, lang):
 
 
 def make_batch(rng, lang, n_sent=None, licensed_only=False, awkward=0.2, with_failed=0.0):
-    cats = gen_cat.inventory(lang)
+    cats = gen_cat.tree_cats(lang)
     out = []
     for _ in range(n_sent or rng.randint(1, 3)):
         if rng.random() < with_failed:
